@@ -39,6 +39,13 @@ func c10Tracks(layout string) []vfyh.Track {
 // VerifC10 crops a progressive file at durationMS and compares the output with the statement of
 // C10 (prefix of every track, k determined by the reference track's sync samples).
 func VerifC10(layout string, durationMS int, co64 bool, lazy bool) {
+	// a layout ending in "+L": the input's mdat has a 64-bit header
+	vfyh.LargeMdat = false
+	if len(layout) > 2 && layout[len(layout)-2:] == "+L" {
+		vfyh.LargeMdat = true
+		layout = layout[:len(layout)-2]
+	}
+	defer func() { vfyh.LargeMdat = false }()
 	if durationMS < 0 {
 		// every crop duration from 1 ms to beyond the end at once
 		durationMS = int(vfy.U16("durationMS"))
